@@ -302,6 +302,11 @@ def main(outdir):
         [canon_changeset_opl(c) for c in CHANGESETS] + dump(DS_SMALL, "opl")[:1])
     bad = lines_small[0] + "\r\n\r\n" + lines_small[1] + "\n" + "w5 v1 dV cX t i7 u T N" + "\r\n" + lines_small[3] + "\n"
     put("opl-error-line3", "opl", "opl", bad.encode(), [], "e")
+    # comment lines (a line starting with '#' is ignored, but counted for the line number of a later error) and empty lines
+    commented = "# first comment\n" + lines_small[0] + "\n#\n\n# a longer comment line, with = , @ % characters\r\n" + lines_small[1] + "\n" + lines_small[2] + "\n#last"
+    put("opl-comments", "opl", "opl", commented.encode(), dump(DS_SMALL, "opl")[:3], "t")
+    bad2 = "# comment before the data\n" + lines_small[0] + "\n# another comment\n" + "n7 v1 dV c1 t i7 u T xNaN y1" + "\n" + lines_small[1] + "\n"
+    put("opl-error-after-comments", "opl", "opl", bad2.encode(), [], "e")
 
     # ---- XML
     tiny = {"objects": [node(1, 10000000, 20000000, [("n", "é&")]), node(2, -1, 5), way(5, [1, 2])]}
